@@ -67,4 +67,12 @@ CHECKS = {
                 "through nuwiki.extractall, and the short names also through nuwiki.Adapt(zipfile) and wiki.extract_wiki(multi-nuwiki).",
         "note": "POSIX semantics; no symlinks in the destination; all hostile names resolve inside a 6-level-deep private sandbox so that a broken implementation cannot damage the machine.",
     },
+    "C20": {
+        "engine": "fsfault", "category": "fault_enumeration", "design_ref": "DESIGN.md §3 C20",
+        "technique": "exhaustive crash-point / torn-write / injected-error enumeration over the recorded file-system operation history of each producer (LD_PRELOAD shim, forked child per schedule)",
+        "text": "For each producer history (Status x3 dumps, buildzip.make_zip, ZipCreator.create_zip, fetch.download_to_file, the mw-render command with the real rl writer; each with and without a complete previous version) "
+                "the file-system operations are recorded and then the process is killed before every operation, after half of every write, every operation fails once with ENOSPC/EIO, and (status in quick, all small producers in thorough) every error-then-crash pair. "
+                "The surviving parent checks that the published path is absent, the complete previous version, or a complete new version.",
+        "note": "process kill semantics (completed syscalls persist); libc-level interposition of the calls CPython, zipfile, shutil and reportlab use; producers' network/collection inputs are stubbed at make_nuwiki / the httpx client.",
+    },
 }
